@@ -325,6 +325,12 @@ OnApi(st, e) ==
                      \* whose configured TTL changed (the queued copy is stale; the announcement at this instant carries the new one)
                      !.obl = {[o EXCEPT !.st = IF o.st \in {"open", "late"} /\ (o.r \notin Owned(st1) \/ TtlsOf(st1, o.r) # TtlsOf(st, o.r))
                                               THEN "cov" ELSE o.st] : o \in @}]
+    [] e.op = "mut" ->
+         \* the application changed the addresses of the registered description in place: from now on the service's address
+         \* records are the new ones (nothing is announced, nothing is withdrawn)
+         LET v == e.svc
+             st1 == [st EXCEPT !.reg[v.sid] = v]
+         IN [st1 EXCEPT !.obl = {[o EXCEPT !.st = IF o.st \in {"open", "late"} /\ o.r \notin Owned(st1) THEN "cov" ELSE o.st] : o \in @}]
     [] e.op = "unreg" ->
          LET v == st.reg[e.sid]
              st1 == [st EXCEPT !.reg[e.sid] = NoSvc]
